@@ -9,7 +9,11 @@ read off the arrays.
 * `EnvOK`, `StOK`, `AppOK`, `MA`, `PostOK`   the invariants (what the search reads is well formed; `lsub` prefix frozen,
                                   sizes, marked pivoted rows have a discovered representative; appended rows
                                   distinct / unpivoted / marked and every marked unpivoted row appended; the list
-                                  of finished representatives is duplicate free, below jcol, and `segrep` has room);
+                                  of finished representatives is duplicate free, below jcol; the filled part of
+                                  `segrep` is a duplicate-free list of columns below jcol <= |segrep| - `PostOK.pop`:
+                                  there is room for a column that is not in it yet; `ScanAt` carries "an entry of the
+                                  filled part that is not discovered lies below the node being scanned", so a node the
+                                  search descends to is never one of the panel's segments already there);
 * `scan_rows`, `scanAt_all`       the machine started inside the pruned list of a representative `s` reaches the
                                   point where `s` is popped, and in between does exactly what folding the recursive
                                   visit over the successors found in the rest of the list does (`ScanRes`: finished
